@@ -13,8 +13,10 @@ Three kinds of cases:
 The checker (class LogChecker) keeps its own rung tables, fed only with what next_job returned and what was
 passed to / returned by on_result, and reports `property` violations."""
 import datetime
+import json
 import logging
 import math
+import os
 
 from common import q, lst, natlit, zlit, optlit, blit
 
@@ -757,6 +759,17 @@ def run(ctx, replay=None):
                 "a tie or a failed entry and 0 < new_len < len, or a sequence that completes >= 1 rung with >= 2 open "
                 "brackets or >= 1 failed job; distinct by content hash")
     try:
+        if replay is None:
+            # minimised / directed cases first (corpus/C05/*.json, each a replayable "case" dict)
+            cdir = os.path.join(os.path.dirname(os.path.dirname(os.path.dirname(os.path.abspath(__file__)))), "corpus", "C05")
+            if os.path.isdir(cdir):
+                for f in sorted(os.listdir(cdir)):
+                    if f.endswith(".json"):
+                        case = json.load(open(os.path.join(cdir, f)))
+                        ctx.h("corpus", case.get("kind"))
+                        run_top(ctx, case)
+                        run_mgr(ctx, case)
+                        run_sched(ctx, case)
         run_top(ctx, replay)
         run_mgr(ctx, replay)
         run_sched(ctx, replay)
